@@ -76,7 +76,7 @@ func init() {
 			if impl != `{"ok":"cloned"}` {
 				viols = append(viols, run.Violation{Property: "C03", What: "Clone does not reproduce the document or panics", Witness: "clone-broken", Req: orig, Detail: impl})
 			} else if after := vj.Enc(doc); after != orig {
-				for _, p := range []string{"C03", "C17"} {
+				for _, p := range []string{"C02", "C03", "C17"} {
 					viols = append(viols, run.Violation{Property: p, What: "writing into a clone changes the original (shared backing array)", Witness: "clone-shares-memory", Req: orig, Detail: after})
 				}
 			}
